@@ -92,9 +92,19 @@ def relocate_signs_inplace(built, desc, rng):
     done = False
     for l in desc["links"]:
         el = built.links[l["id"]]
-        if l.get("vsl") and isinstance(getattr(el, "vsl", None), list) and len(el.vsl) == len(l["vsl"]):
+        if l.get("vsl") and isinstance(getattr(el, "vsl", None), (list, range)) and len(el.vsl) == len(l["vsl"]):
+            if isinstance(el.vsl, range):
+                el.vsl = list(el.vsl)
             free = [i for i in range(l["N"]) if i not in [j % l["N"] for j in el.vsl]]
-            how = rng.choice(("move", "move", "reverse", "alpha")) if free else rng.choice(("reverse", "alpha"))
+            how = rng.choice(("move", "move", "reverse", "alpha", "range")) if free else rng.choice(("reverse", "alpha", "range"))
+            if how == "range":
+                # the signs re-assigned as a range (same number of signs: the last k segments, or the first k backwards)
+                k_ = len(el.vsl)
+                el.vsl = rng.choice((range(-k_, 0), range(k_ - 1, -1, -1), range(0, k_)))
+                l["vsl"] = list(el.vsl)
+                l["vsl_live_order"] = True
+                done = True
+                continue
             if how == "move":
                 el.vsl[rng.randrange(len(el.vsl))] = rng.choice(free)
             elif how == "reverse":
@@ -831,7 +841,7 @@ def late_registered_ramp_kinds(M, rec, rng, n_nets, before_case=None, engine_kin
                 M.MeteredOnRamp.register(Feeder)
 
 
-def user_node_rules(M, rec, rng, n_nets, before_case=None, engine_kinds=("numpy",), symvals=None):
+def user_node_rules(M, rec, rng, n_nets, before_case=None, engine_kinds=("numpy",), symvals=None, regimes=("interior",)):
     """Networks with a user-defined NODE kind that has its own node rule (an exit taking a share of the flow at the node) at
     plain joints, merges, bifurcations and on-ramp nodes alike: the rule of the node object applies wherever it sits."""
     import copy
@@ -852,11 +862,15 @@ def user_node_rules(M, rec, rng, n_nets, before_case=None, engine_kinds=("numpy"
         if plain:
             chosen.add(rng.choice(plain))
         desc["node_off"] = {n_: round(rng.uniform(0.05, 0.4), 3) for n_ in sorted(chosen)}
+        # ... and its own downstream density (what the entering links - and nobody else - are told lies ahead), also at nodes
+        # that carry an on-ramp and at nodes with one leaving link
+        blocked = [n_ for n_ in inner if rng.random() < 0.6] or [rng.choice(inner)]
+        desc["node_block"] = {n_: round(rng.uniform(20.0, 120.0), 1) for n_ in sorted(blocked)}
         built = D.build(M, desc, D.random_ops(desc, rng))
         rec.count("networks_with_a_user_defined_node_rule")
         for k in range(2):
             kind = engine_kinds[(it + k) % len(engine_kinds)]
-            _, vals = g.values(desc, "interior", allow_inf=False)
+            _, vals = g.values(desc, regimes[(it + k) % len(regimes)], allow_inf=False)
             pars = g.pars()
             case = {"desc": desc, "vals": vals, "pars": pars, "opts": {}, "engine": kind}
             if before_case:
